@@ -70,6 +70,8 @@ pub fn make_case(seed: u64, tier: Tier, idx: u64, scope: &SmallScope) -> Case {
     model.start_pos = rng.below(model.nts.len() + 1);
     model.term_pos = rng.below(model.nts.len() + 1);
     let src = model.render();
+    // the grammar the reference works on is the one the model denotes (rule numbering included)
+    let cfg = model.cfg();
     Case {
         source,
         model,
